@@ -229,7 +229,8 @@ def gen_c16_float(rng, tier):
                 out.append((name, [k], ins))
     special = [float('nan'), float('inf'), float('-inf'), -0.0, 0.0, 5e-324, -5e-324, 1.7976931348623157e308]
     # dividing helpers on zero, signed-zero, infinite and NaN operands: IEEE results (±Inf, NaN), never a substituted value
-    for name in ('Divide', 'ChangeRatio', 'ChangePercent', 'PowInv', 'Pow2', 'DivideBy'):
+    # … and every other mapping helper on the same operands (a square root of a negative number, of -Inf, of -0)
+    for name in ('Divide', 'ChangeRatio', 'ChangePercent', 'PowInv', 'Pow2', 'DivideBy', 'Sqrt', 'RoundDigits0'):
         for n in range(1, L + 1):
             k = rng.choice([1, 1, 2, 3]) if name in ('ChangeRatio', 'ChangePercent') else rng.randrange(1, 9)
             mix = lambda: [rng.choice([0.0, 0.0, -0.0, float('inf'), float('-inf'), float('nan'), 5e-324]) if rng.random() < 0.45
@@ -288,13 +289,13 @@ def py_helper_float(name, ps, ins):
     if name == 'DivideBy':
         return [x / float(k) for x in a]
     if name == 'Sqrt':
-        return [math.sqrt(x) for x in a]
+        return [(float('nan') if (x != x or x < 0) else (x if x == float('inf') else math.sqrt(x))) for x in a]
     if name == 'Pow2':
         return [x * x for x in a]
     if name == 'PowInv':
         return [fdiv(1.0, x) for x in a]
     if name == 'RoundDigits0':
-        return [math.floor(abs(x) + 0.5) * (1 if x >= 0 else -1) for x in a]
+        return [(x if (x != x or abs(x) == float('inf')) else math.floor(abs(x) + 0.5) * (1 if x >= 0 else -1)) for x in a]
     raise KeyError(name)
 
 
